@@ -63,8 +63,7 @@ Definition is_snippet (n : anode) : bool := negb (truthy_s (an_name n)) && negb 
 Definition is_snippet_opt (n : option anode) : bool := match n with Some x => is_snippet x | None => false end.
 
 Definition has_newline (v : vtok) : bool :=
-  (* bool(value) and value.splitlines() != [value]: the value contains a line boundary *)
-  match v with VStr s => existsb is_linebreak s | VField _ _ => false end.
+  match v with VStr s => existsb (fun c => (c =? c_cr)%N || (c =? c_nl)%N) s | VField _ _ => false end.
 
 (* push_tokens(tokens, state) *)
 Definition push_tokens (c : oconfig) (tokens : list vtok) (st : fstate) : fstate :=
